@@ -49,6 +49,12 @@ pub const DEF: PropDef = PropDef {
 
 /// completeness is demanded up to this stage (engine bound is 10)
 const STAGE_BOUND: usize = 5;
+/// ... and up to this stage in the "deep" family (one level of margin against the engine's own bound:
+/// a fact of stage s needs goals at depths 0..=s, and only depth > MAX_DEPTH = 10 is cut)
+const STAGE_BOUND_DEEP: usize = 9;
+/// step cap of the "deep" family: right-linear recursion over a chain costs O(length^2) steps per goal,
+/// there is no blow-up to protect against
+const STEP_CAP_DEEP: u64 = 60_000;
 /// depth bound used by the cost model (mirrors the subject's private MAX_DEPTH; only influences skipping)
 const MODEL_MAX_DEPTH: usize = 10;
 const STEP_CAP_QUICK: u64 = 600;
@@ -59,6 +65,13 @@ const HARD_TIMEOUT_S: u64 = 20;
 /// variable name used inside the rules), then names the engine generates itself
 const NAMES: [&str; 6] = ["x", "X", "Y", "v0", "v1", "v2"];
 const N_PLAIN: usize = 3;
+/// extended naming alphabet: the other names used inside the rules (y, z and the predicate variable r),
+/// engine-like names off the beaten track (v3: leaves v0..v2 free; v10: multi-digit; v01: parses to 1 but
+/// is not the generated name v1)
+const NAMES_EXT: [&str; 6] = ["y", "z", "r", "v3", "v10", "v01"];
+/// mixed pairs / triples with prefix-related and numerically equal engine-like names
+const NAMES_EXT_MIXED2: [[&str; 2]; 6] = [["v1", "v10"], ["v10", "v1"], ["v0", "v01"], ["v01", "v1"], ["x", "v10"], ["v3", "Y"]];
+const NAMES_EXT_MIXED3: [[&str; 3]; 3] = [["v1", "v10", "v01"], ["v10", "v0", "v3"], ["y", "v2", "v10"]];
 
 /// The rule core. Variables ?x ?y ?z, predicate variable ?r.
 const CORE: [&str; 24] = [
@@ -111,6 +124,32 @@ const CURATED: [&[usize]; 14] = [
     &[0, 4, 6, 9],
     &[1, 3, 7, 8],
     &[2, 5, 8, 9],
+];
+
+/// Programs outside the 24-rule core (family "shapes"): (rules, also run the extended namings?)
+const EXTRA_PROGRAMS: [(&[&str], bool); 17] = [
+    // three premises (the rule loop of the engine is generic in the number of premises)
+    (&["?x q ?w :- ?x p ?y, ?y p ?z, ?z p ?w"], false),
+    (&["?x q ?w :- ?x p ?y, ?y ?r ?z, ?z p ?w"], false),
+    (&["?x q ?y :- ?x p ?y, ?y p ?z, ?z p ?x"], false),
+    // ground conclusion / fully ground rule / ground and non-ground conclusion
+    (&["a q b :- ?x p ?y"], false),
+    (&["a q b :- a p b"], false),
+    (&["a q b, ?x q ?x :- ?x p ?y"], false),
+    // rule written with multi-digit engine-like names, goals named alike
+    (&["?v10 q ?v3 :- ?v3 p ?v10"], true),
+    // three rules
+    (&["?x q ?y :- ?x p ?y", "?x q ?z :- ?x p ?y, ?y p ?z", "?x q ?w :- ?x p ?y, ?y p ?z, ?z p ?w"], false),
+    (&["?x q ?y :- ?x p ?y", "?y p ?x :- ?x q ?y", "?x q ?z :- ?x p ?y, ?y q ?z"], false),
+    (&["?x q ?y :- ?x p ?y", "?x p ?y :- ?x q ?y", "?y q ?x :- ?x q ?y"], false),
+    // filters between two variables (= / !=): a rule instance whose filter fails derives nothing
+    (&["?x q ?y :- ?x p ?y | ?x != ?y"], false),
+    (&["?x q ?y :- ?x p ?y | ?x = ?y"], false),
+    (&["?x q ?z :- ?x p ?y, ?y p ?z | ?x != ?z"], false),
+    (&["?x q ?z :- ?x p ?y, ?y p ?z | ?x != ?z, ?y != ?z"], false),
+    (&["?y q ?x :- ?x ?r ?y | ?x != ?y"], false),
+    (&["?x q ?y :- ?x p ?y | ?x != ?y", "?x q ?z :- ?x p ?y, ?y q ?z"], false),
+    (&["?x q ?y :- ?x p ?y", "?x q ?z :- ?x p ?y, ?y q ?z | ?x != ?z"], false),
 ];
 
 fn fact_sets(max: usize) -> Vec<Vec<usize>> {
@@ -200,12 +239,36 @@ fn nslots(sh: &Shape) -> usize {
 /// assignment in which the plain names are used in the fixed order x, X, Y (slots named like engine
 /// variables still take v0, v1, v2 in every arrangement) - 4 / 13 / 34 namings instead of 6 / 30 / 120.
 fn namings(k: usize, full: bool) -> Vec<Vec<&'static str>> {
+    namings_from(&NAMES, k, full)
+}
+
+/// Namings run for a shape of k slots: the base list (plain naming first), then - if `ext` - the same
+/// construction over NAMES_EXT (fixed-order rule: y, z, r in that order, v3/v10/v01 in every arrangement)
+/// plus the mixed pairs / triples.
+fn namings_ext(k: usize, full: bool, ext: bool, base_plain_only: bool) -> Vec<Vec<&'static str>> {
+    let mut v = namings(k, full);
+    if base_plain_only {
+        v.truncate(1);
+    }
+    if ext && k > 0 {
+        v.extend(namings_from(&NAMES_EXT, k, false));
+        if k == 2 {
+            v.extend(NAMES_EXT_MIXED2.iter().map(|m| m.to_vec()));
+        }
+        if k == 3 {
+            v.extend(NAMES_EXT_MIXED3.iter().map(|m| m.to_vec()));
+        }
+    }
+    v
+}
+
+fn namings_from(names: &[&'static str; 6], k: usize, full: bool) -> Vec<Vec<&'static str>> {
     let mut out: Vec<Vec<&'static str>> = vec![vec![]];
     for _ in 0..k {
         let mut next = Vec::new();
         for n in &out {
-            let plain_used = n.iter().filter(|x| NAMES[..N_PLAIN].contains(x)).count();
-            for (ni, name) in NAMES.iter().enumerate() {
+            let plain_used = n.iter().filter(|x| names[..N_PLAIN].contains(x)).count();
+            for (ni, name) in names.iter().enumerate() {
                 if n.contains(name) {
                     continue;
                 }
@@ -480,7 +543,12 @@ fn build_reasoner(rules: &[Rule], facts: &[Fact], goals: &[Atom]) -> (Reasoner, 
     for rule in rules {
         let premise = rule.premise.iter().map(|a| conv(&mut r, a, &mut ids)).collect();
         let conclusion = rule.conclusion.iter().map(|a| conv(&mut r, a, &mut ids)).collect();
-        r.add_rule(shared::rule::Rule { premise, negative_premise: vec![], filters: vec![], conclusion });
+        let filters = rule
+            .filters
+            .iter()
+            .map(|f| shared::rule::FilterCondition { variable: f.left.clone(), operator: if f.equal { "=" } else { "!=" }.to_string(), value: f.right.clone() })
+            .collect();
+        r.add_rule(shared::rule::Rule { premise, negative_premise: vec![], filters, conclusion });
     }
     for g in goals {
         for t in g {
@@ -587,34 +655,60 @@ impl Subject {
 struct Verdict {
     symptom: &'static str,
     detail: String,
+    /// structural facts about this verdict (computed differentially, never from a list of known bugs)
+    extra_tags: Vec<String>,
+}
+
+/// What a goal is judged against: the least model of the program, the stage bound of the family, and
+/// (for programs with filters) the least model of the same program with every filter deleted - only
+/// used to tag an unsound answer as "explained by ignoring the filters".
+struct Reference<'a> {
+    model: &'a BTreeMap<Fact, usize>,
+    stage_bound: usize,
+    model_without_filters: Option<&'a BTreeMap<Fact, usize>>,
+}
+
+fn strip_filters(rules: &[Rule]) -> Vec<Rule> {
+    rules.iter().map(|r| Rule { premise: r.premise.clone(), conclusion: r.conclusion.clone(), filters: vec![] }).collect()
+}
+
+fn has_filters(rules: &[Rule]) -> bool {
+    rules.iter().any(|r| !r.filters.is_empty())
 }
 
 /// Judge one observation against the least model. `expected` = model facts matching the goal with
 /// their stage (independent of the naming). `plain` = observation of the plain naming of the same
 /// shape (None when this *is* the plain naming).
-fn judge(obs: &Result<Obs, String>, model: &BTreeMap<Fact, usize>, expected: &[(Fact, usize)], plain: Option<&Result<Obs, String>>) -> Vec<Verdict> {
+fn judge(obs: &Result<Obs, String>, rf: &Reference, expected: &[(Fact, usize)], plain: Option<&Result<Obs, String>>) -> Vec<Verdict> {
+    let model = rf.model;
     let mut v = Vec::new();
     let obs = match obs {
         Ok(o) => o,
         Err(e) => {
-            v.push(Verdict { symptom: "panic", detail: format!("backward_chaining panicked: {}", e) });
+            v.push(Verdict { symptom: "panic", detail: format!("backward_chaining panicked: {}", e), extra_tags: vec![] });
             return v;
         }
     };
     // soundness: every answer applied to the goal is a ground fact of the least model
     let unsound: Vec<&Fact> = obs.answers.iter().filter(|f| !model.contains_key(*f)).collect();
     if !unsound.is_empty() {
-        v.push(Verdict { symptom: "unsound_answer", detail: format!("answers not in the least model: {:?}", unsound.iter().map(|f| dl::show_fact(f)).collect::<Vec<_>>()) });
+        let mut extra = Vec::new();
+        if let Some(nf) = rf.model_without_filters {
+            extra.push(if unsound.iter().all(|f| nf.contains_key(*f)) { "explained_by=filters_ignored".to_string() } else { "not_explained_by_ignoring_filters".to_string() });
+        }
+        v.push(Verdict { symptom: "unsound_answer", detail: format!("answers not in the least model: {:?}", unsound.iter().map(|f| dl::show_fact(f)).collect::<Vec<_>>()), extra_tags: extra });
     }
     if !obs.nonground.is_empty() {
-        v.push(Verdict { symptom: "nonground_answer", detail: format!("answers applied to the goal are not ground: {:?}", obs.nonground) });
+        v.push(Verdict { symptom: "nonground_answer", detail: format!("answers applied to the goal are not ground: {:?}", obs.nonground), extra_tags: vec![] });
     }
     // completeness within the stage bound
-    let missing: Vec<String> = expected.iter().filter(|(f, st)| *st <= STAGE_BOUND && !obs.answers.contains(f)).map(|(f, st)| format!("{} (stage {})", dl::show_fact(f), st)).collect();
+    let missing: Vec<String> = expected.iter().filter(|(f, st)| *st <= rf.stage_bound && !obs.answers.contains(f)).map(|(f, st)| format!("{} (stage {})", dl::show_fact(f), st)).collect();
     if !missing.is_empty() {
+        let shallowest = expected.iter().filter(|(f, st)| *st <= rf.stage_bound && !obs.answers.contains(f)).map(|x| x.1).min().unwrap_or(0);
         v.push(Verdict {
             symptom: "missing_answer",
-            detail: format!("model facts matching the goal within stage {} not returned: {:?}; returned: {:?}", STAGE_BOUND, missing, obs.answers.iter().map(dl::show_fact).collect::<Vec<_>>()),
+            detail: format!("model facts matching the goal within stage {} not returned: {:?}; returned: {:?}", rf.stage_bound, missing, obs.answers.iter().map(dl::show_fact).collect::<Vec<_>>()),
+            extra_tags: vec![if shallowest > STAGE_BOUND { format!("only_missing_beyond_stage_{}", STAGE_BOUND) } else { format!("missing_within_stage_{}", STAGE_BOUND) }],
         });
     }
     // whatever the variables are called: same answer set as the plain naming of the same goal
@@ -628,6 +722,7 @@ fn judge(obs: &Result<Obs, String>, model: &BTreeMap<Fact, usize>, expected: &[(
                         obs.answers.iter().map(dl::show_fact).collect::<Vec<_>>(),
                         p.answers.iter().map(dl::show_fact).collect::<Vec<_>>()
                     ),
+                    extra_tags: vec![],
                 });
             }
         }
@@ -645,6 +740,18 @@ fn case_json(rules: &[Rule], facts: &[Fact], goal: &Atom) -> Value {
         "facts": facts.iter().map(dl::show_fact).collect::<Vec<_>>(),
         "goal": dl::show_atom(goal),
     })
+}
+
+/// case record of a batch with non-default bounds (replay reads them back)
+fn case_json_b(rules: &[Rule], facts: &[Fact], goal: &Atom, bo: &BatchOpts) -> Value {
+    let mut v = case_json(rules, facts, goal);
+    if bo.stage_bound != STAGE_BOUND {
+        v["stage_bound"] = json!(bo.stage_bound);
+    }
+    if bo.step_cap > STEP_CAP_THOROUGH {
+        v["step_cap"] = json!(bo.step_cap);
+    }
+    v
 }
 
 /// Structural facts about a failing case (never derived from a list of known bugs).
@@ -676,14 +783,35 @@ fn tags_for(rules: &[Rule], goal: &Atom, plain_ok: Option<bool>) -> Vec<String> 
     if rules.iter().any(|r| r.premise.iter().chain(r.conclusion.iter()).any(|a| a[1].is_var())) {
         tags.push("rule_var_predicate".to_string());
     }
+    tags.push(if has_filters(rules) { "rule_has_filter".to_string() } else { "rules_without_filter".to_string() });
+    if rules.iter().any(|r| r.premise.len() >= 3) {
+        tags.push("rule_3plus_premises".to_string());
+    }
     tags
 }
 
+/// How one (program, fact set) batch is enumerated and judged.
+struct BatchOpts<'a> {
+    shapes: &'a [Shape],
+    /// every injective naming over NAMES (else the fixed-plain-order subset)
+    full_namings: bool,
+    /// additionally the extended naming alphabet (NAMES_EXT + mixed pairs / triples)
+    ext_namings: bool,
+    /// of the base namings only the plain one (the reference of the renaming clause) is run
+    base_plain_only: bool,
+    step_cap: u64,
+    stage_bound: usize,
+    family: &'a str,
+}
+
 /// One (program, fact set) batch: every goal shape x naming. Returns false if the shard must stop.
-#[allow(clippy::too_many_arguments)]
-fn run_batch(subject: &Subject, out: &mut ShardOut, rules: &[Rule], facts: &[Fact], shapes: &[Shape], full_namings: bool, step_cap: u64, family: &str, batch_key: u64) -> bool {
+fn run_batch(subject: &Subject, out: &mut ShardOut, rules: &[Rule], facts: &[Fact], bo: &BatchOpts, batch_key: u64) -> bool {
+    let (shapes, step_cap, family) = (bo.shapes, bo.step_cap, bo.family);
     let fset: BTreeSet<Fact> = facts.iter().cloned().collect();
     let model = dl::least_model(&fset, rules);
+    let filtered = has_filters(rules);
+    let model_nf = if filtered { Some(dl::least_model(&fset, &strip_filters(rules))) } else { None };
+    let rf = Reference { model: &model, stage_bound: bo.stage_bound, model_without_filters: model_nf.as_ref() };
     let max_stage = model.values().copied().max().unwrap_or(0);
     out.max("max_stage_in_a_model", max_stage as u64);
     let recursive = is_recursive(rules);
@@ -695,15 +823,29 @@ fn run_batch(subject: &Subject, out: &mut ShardOut, rules: &[Rule], facts: &[Fac
     if model.len() > fset.len() {
         out.count("batches_with_derived_facts", 1);
     }
+    if filtered {
+        out.count("batches_with_filter_rules", 1);
+        if model_nf.as_ref().map_or(false, |m| m.len() > model.len()) {
+            // vacuity: some rule instance is really cut by a filter on this fact set
+            out.count("batches_where_a_filter_cuts_a_derivation", 1);
+        }
+    }
+    if rules.iter().any(|r| r.premise.len() >= 3) {
+        out.count("batches_with_3_premise_rule", 1);
+    }
+    if rules.len() >= 3 {
+        out.count("batches_with_3_rules", 1);
+    }
     // which shapes are run
     let mut goals: Vec<Atom> = Vec::new();
     let mut index: Vec<(usize, usize)> = Vec::new(); // (shape index, naming index)
     let mut expected: HashMap<usize, Vec<(Fact, usize)>> = HashMap::new();
     for (si, sh) in shapes.iter().enumerate() {
-        let nn = namings(nslots(sh), full_namings);
+        let nn = namings_ext(nslots(sh), bo.full_namings, bo.ext_namings, bo.base_plain_only);
         match SldCost::cost(rules, &fset, sh, step_cap) {
             Some(c) => {
                 out.max("max_predicted_steps_of_an_executed_goal", c);
+                out.max(&format!("max_predicted_steps_{}", family), c);
                 out.count("predicted_steps_executed", c * nn.len() as u64);
                 expected.insert(si, expected_for(&name_shape(sh, &nn[0]), &model));
                 for (ni, n) in nn.iter().enumerate() {
@@ -713,6 +855,7 @@ fn run_batch(subject: &Subject, out: &mut ShardOut, rules: &[Rule], facts: &[Fac
             }
             None => {
                 out.count("skipped_shapes_over_step_cap", 1);
+                out.count(&format!("skipped_shapes_over_step_cap_{}", family), 1);
                 out.count("skipped_goals_over_step_cap", nn.len() as u64);
                 if !recursive {
                     out.count("skipped_goals_nonrecursive_program", nn.len() as u64);
@@ -742,10 +885,11 @@ fn run_batch(subject: &Subject, out: &mut ShardOut, rules: &[Rule], facts: &[Fac
     for (gi, goal) in goals.iter().enumerate() {
         let (si, ni) = index[gi];
         out.evaluations += 1;
+        out.count(&format!("goals_{}", family), 1);
         let exp = &expected[&si];
         let plain_gi = plain_of_shape[&si];
         let plain = if ni == 0 { None } else { Some(&obs[plain_gi]) };
-        let verdicts = judge(&obs[gi], &model, exp, plain);
+        let verdicts = judge(&obs[gi], &rf, exp, plain);
         if !exp.is_empty() {
             out.count("goals_with_expected_answers", 1);
         }
@@ -757,9 +901,29 @@ fn run_batch(subject: &Subject, out: &mut ShardOut, rules: &[Rule], facts: &[Fac
                 out.count("goals_with_derived_answers_recursive_program", 1);
             }
         }
+        let (_, gnames) = shape_of(goal);
+        if gnames.iter().any(|n| NAMES_EXT.contains(&n.as_str())) {
+            out.count("goals_with_extended_names", 1);
+            if derived > 0 {
+                out.count("goals_with_extended_names_and_derived_answers", 1);
+            }
+        }
         if ni == 0 {
             for (_, st) in exp {
                 out.count(&format!("expected_answers_of_plain_goals_stage_{}", st), 1);
+                if *st > STAGE_BOUND && *st <= bo.stage_bound {
+                    out.count("expected_answers_demanded_beyond_stage_5", 1);
+                }
+            }
+            if let (Some(nf), Ok(o)) = (&model_nf, &obs[gi]) {
+                // vacuity of the filter family: goals for which ignoring the filters would add an answer
+                let cut = dl::matching(goal, nf.keys()).into_iter().filter(|(f, _)| !model.contains_key(f)).count();
+                if cut > 0 {
+                    out.count("plain_goals_where_a_filter_cuts_an_answer", 1);
+                    if o.answers.iter().all(|f| model.contains_key(f)) {
+                        out.count("plain_goals_where_the_engine_respects_the_filter", 1);
+                    }
+                }
             }
         }
         if let Ok(o) = &obs[gi] {
@@ -769,7 +933,7 @@ fn run_batch(subject: &Subject, out: &mut ShardOut, rules: &[Rule], facts: &[Fac
             }
             out.outcome(&o.answers);
             if derived > 0 && (batch_key * 31 + gi as u64) % 4999 == 0 {
-                out.sample(json!({"case": case_json(rules, facts, goal), "answers": o.answers.iter().map(dl::show_fact).collect::<Vec<_>>(), "bindings_returned": o.raw, "max_stage_of_model": max_stage}));
+                out.sample(json!({"case": case_json_b(rules, facts, goal, bo), "family": family, "answers": o.answers.iter().map(dl::show_fact).collect::<Vec<_>>(), "bindings_returned": o.raw, "max_stage_of_model": max_stage}));
             }
         }
         if !verdicts.is_empty() {
@@ -798,9 +962,11 @@ fn run_batch(subject: &Subject, out: &mut ShardOut, rules: &[Rule], facts: &[Fac
         }
         let (si, ni) = index[gi];
         let plain_gi = plain_of_shape[&si];
-        let plain_ok = if ni == 0 { None } else { Some(judge(&obs[plain_gi], &model, &expected[&si], None).is_empty()) };
+        let plain_ok = if ni == 0 { None } else { Some(judge(&obs[plain_gi], &rf, &expected[&si], None).is_empty()) };
         for vd in verdicts {
-            out.fail(case_json(rules, facts, goal), vd.symptom, vd.detail, tags_for(rules, goal, plain_ok));
+            let mut tags = tags_for(rules, goal, plain_ok);
+            tags.extend(vd.extra_tags.iter().cloned());
+            out.fail(case_json_b(rules, facts, goal, bo), vd.symptom, vd.detail, tags);
         }
     }
     true
@@ -810,8 +976,16 @@ fn chain_facts(n: usize) -> Vec<Fact> {
     (0..n).map(|i| [format!("c{}", i), "p".to_string(), format!("c{}", i + 1)]).collect()
 }
 
-/// The enumeration plan of a tier: (program, list of fact sets, all 6-name namings?) in a fixed global order.
-fn plan(thorough: bool) -> Vec<(Vec<usize>, Vec<Vec<usize>>, bool)> {
+/// One entry of the enumeration plan of the "core" family
+struct PlanEntry {
+    program: Vec<usize>,
+    fact_sets: Vec<Vec<usize>>,
+    full_namings: bool,
+    ext_namings: bool,
+}
+
+/// The enumeration plan of a tier in a fixed global order.
+fn plan(thorough: bool) -> Vec<PlanEntry> {
     let curated3: Vec<Vec<usize>> = CURATED.iter().filter(|c| c.len() == 3).map(|c| c.to_vec()).collect();
     let curated4: Vec<Vec<usize>> = CURATED.iter().filter(|c| c.len() == 4).map(|c| c.to_vec()).collect();
     let mut l2c = fact_sets(2);
@@ -822,14 +996,14 @@ fn plan(thorough: bool) -> Vec<(Vec<usize>, Vec<Vec<usize>>, bool)> {
     let l4 = fact_sets(4);
     let mut v = Vec::new();
     for i in 0..CORE.len() {
-        v.push((vec![i], if thorough { l4.clone() } else { l2c.clone() }, thorough));
+        v.push(PlanEntry { program: vec![i], fact_sets: if thorough { l4.clone() } else { l2c.clone() }, full_namings: thorough, ext_namings: false });
     }
     if thorough {
         for i in 0..CORE.len() {
             for j in 0..CORE.len() {
                 if i != j {
                     let dense = THOROUGH_DENSE_PAIR_CORE.contains(&i) && THOROUGH_DENSE_PAIR_CORE.contains(&j);
-                    v.push((vec![i, j], if dense { l3c.clone() } else { l2c.clone() }, dense));
+                    v.push(PlanEntry { program: vec![i, j], fact_sets: if dense { l3c.clone() } else { l2c.clone() }, full_namings: dense, ext_namings: false });
                 }
             }
         }
@@ -837,12 +1011,28 @@ fn plan(thorough: bool) -> Vec<(Vec<usize>, Vec<Vec<usize>>, bool)> {
         for &i in &QUICK_PAIR_CORE {
             for &j in &QUICK_PAIR_CORE {
                 if i != j {
-                    v.push((vec![i, j], l2c.clone(), false));
+                    v.push(PlanEntry { program: vec![i, j], fact_sets: l2c.clone(), full_namings: false, ext_namings: false });
                 }
             }
         }
     }
     v
+}
+
+/// fact sets of the "names" family (single rules under the extended naming alphabet): quick = the fact
+/// sets of size <= 1 and the curated ones, thorough = size <= 2 and the curated ones
+fn names_fact_sets(thorough: bool) -> Vec<Vec<usize>> {
+    let mut l = fact_sets(if thorough { 2 } else { 1 });
+    l.extend(CURATED.iter().map(|c| c.to_vec()));
+    l
+}
+
+/// fact sets of the "shapes" family: quick = size <= 1 + curated (the curated sets hold the chains,
+/// 2-cycles and self-loops that the 3-premise and the filter rules need), thorough = size <= 3 + curated 4-sets
+fn shapes_fact_sets(thorough: bool) -> Vec<Vec<usize>> {
+    let mut l = fact_sets(if thorough { 3 } else { 1 });
+    l.extend(CURATED.iter().filter(|c| !thorough || c.len() == 4).map(|c| c.to_vec()));
+    l
 }
 
 fn goal_shapes() -> Vec<Shape> {
@@ -858,10 +1048,13 @@ fn run(ctx: &Ctx) -> ShardOut {
     let universe: Vec<Fact> = FACT_UNIVERSE.iter().map(|f| dl::fact(f)).collect();
     let shp = goal_shapes();
     let plan = plan(thorough);
-    out.count("max_programs", plan.len() as u64);
-    out.count("max_planned_batches", plan.iter().map(|p| p.1.len() as u64).sum::<u64>() + 12);
+    let names_fs = names_fact_sets(thorough);
+    let shapes_fs = shapes_fact_sets(thorough);
+    out.count("max_programs", (plan.len() + EXTRA_PROGRAMS.len()) as u64);
+    out.count("max_planned_batches", plan.iter().map(|p| p.fact_sets.len() as u64).sum::<u64>() + 12 + 6 + (CORE.len() * names_fs.len()) as u64 + (EXTRA_PROGRAMS.len() * shapes_fs.len()) as u64);
     out.count("max_goal_shapes", shp.len() as u64);
     out.count("max_goals_per_batch", shp.iter().map(|s| namings(nslots(s), thorough).len() as u64).sum());
+    out.count("max_goals_per_batch_with_extended_names", shp.iter().map(|s| namings_ext(nslots(s), false, true, true).len() as u64).sum());
     out.count("max_step_cap", step_cap);
     let mut idx = 0u64;
 
@@ -879,15 +1072,88 @@ fn run(ctx: &Ctx) -> ShardOut {
             if let Some(p) = &ctx.progress {
                 p.mark(&case_json(&rules, &facts, &dl::atom("?x ?X ?Y")).to_string());
             }
-            if !run_batch(&subject, &mut out, &rules, &facts, &chain_shapes, thorough, step_cap, "chain", idx) {
+            let bo = BatchOpts { shapes: &chain_shapes, full_namings: thorough, ext_namings: false, base_plain_only: false, step_cap, stage_bound: STAGE_BOUND, family: "chain" };
+            if !run_batch(&subject, &mut out, &rules, &facts, &bo, idx) {
+                return out;
+            }
+        }
+    }
+
+    // family "deep": the depth boundary. p-chains of 9, 10 and 11 edges under right-linear recursion
+    // (cost O(length^2) per goal, no blow-up): q-facts of stage 9 are demanded (STAGE_BOUND_DEEP), those of
+    // stage 10 and 11 are only checked for soundness. Goals over the chain ends c0/c2 and c9/c10/c11.
+    let deep_programs: [[usize; 2]; 2] = [[0, 12], [12, 0]];
+    let deep_shapes = shapes(&["c0", "c2"], &["q"], &["c9", "c10", "c11"]);
+    for len in [9usize, 10, 11] {
+        for cp in &deep_programs {
+            idx += 1;
+            if !ctx.mine(idx) {
+                continue;
+            }
+            let rules: Vec<Rule> = cp.iter().map(|i| core[*i].clone()).collect();
+            let facts = chain_facts(len);
+            if let Some(p) = &ctx.progress {
+                p.mark(&case_json(&rules, &facts, &dl::atom("?x ?X ?Y")).to_string());
+            }
+            let bo = BatchOpts { shapes: &deep_shapes, full_namings: thorough, ext_namings: true, base_plain_only: false, step_cap: STEP_CAP_DEEP, stage_bound: STAGE_BOUND_DEEP, family: "deep" };
+            if !run_batch(&subject, &mut out, &rules, &facts, &bo, idx) {
+                return out;
+            }
+        }
+    }
+
+    // family "names": every single rule of the core under the extended naming alphabet
+    for pi in 0..CORE.len() {
+        let rules = vec![core[pi].clone()];
+        for fs in &names_fs {
+            idx += 1;
+            if !ctx.mine(idx) {
+                continue;
+            }
+            if ctx.expired() {
+                out.capped.push(format!("wall-clock cap: a shard stopped in family names at rule {} of {}; its earlier batches are complete", pi, CORE.len()));
+                note_skips(&mut out);
+                return out;
+            }
+            let facts: Vec<Fact> = fs.iter().map(|i| universe[*i].clone()).collect();
+            if let Some(p) = &ctx.progress {
+                p.mark(&case_json(&rules, &facts, &dl::atom("?x ?X ?Y")).to_string());
+            }
+            let bo = BatchOpts { shapes: &shp, full_namings: false, ext_namings: true, base_plain_only: true, step_cap, stage_bound: STAGE_BOUND, family: "names" };
+            if !run_batch(&subject, &mut out, &rules, &facts, &bo, idx) {
+                return out;
+            }
+        }
+    }
+
+    // family "shapes": programs outside the core (3 premises, ground conclusions, 3 rules, filters)
+    for (pi, (prog, ext)) in EXTRA_PROGRAMS.iter().enumerate() {
+        let rules: Vec<Rule> = prog.iter().map(|r| dl::rule(r)).collect();
+        for fs in &shapes_fs {
+            idx += 1;
+            if !ctx.mine(idx) {
+                continue;
+            }
+            if ctx.expired() {
+                out.capped.push(format!("wall-clock cap: a shard stopped in family shapes at program {} of {}; its earlier batches are complete", pi, EXTRA_PROGRAMS.len()));
+                note_skips(&mut out);
+                return out;
+            }
+            let facts: Vec<Fact> = fs.iter().map(|i| universe[*i].clone()).collect();
+            if let Some(p) = &ctx.progress {
+                p.mark(&case_json(&rules, &facts, &dl::atom("?x ?X ?Y")).to_string());
+            }
+            let bo = BatchOpts { shapes: &shp, full_namings: thorough, ext_namings: *ext, base_plain_only: false, step_cap, stage_bound: STAGE_BOUND, family: "shapes" };
+            if !run_batch(&subject, &mut out, &rules, &facts, &bo, idx) {
                 return out;
             }
         }
     }
 
     // family "core": programs x fact sets
-    for (pi, (prog, fsets, full_namings)) in plan.iter().enumerate() {
-        let rules: Vec<Rule> = prog.iter().map(|i| core[*i].clone()).collect();
+    for (pi, pe) in plan.iter().enumerate() {
+        let rules: Vec<Rule> = pe.program.iter().map(|i| core[*i].clone()).collect();
+        let fsets = &pe.fact_sets;
         for (fi, fs) in fsets.iter().enumerate() {
             idx += 1;
             if !ctx.mine(idx) {
@@ -902,7 +1168,8 @@ fn run(ctx: &Ctx) -> ShardOut {
             if let Some(p) = &ctx.progress {
                 p.mark(&case_json(&rules, &facts, &dl::atom("?x ?X ?Y")).to_string());
             }
-            if !run_batch(&subject, &mut out, &rules, &facts, &shp, *full_namings, step_cap, "core", idx) {
+            let bo = BatchOpts { shapes: &shp, full_namings: pe.full_namings, ext_namings: pe.ext_namings, base_plain_only: false, step_cap, stage_bound: STAGE_BOUND, family: "core" };
+            if !run_batch(&subject, &mut out, &rules, &facts, &bo, idx) {
                 return out;
             }
         }
@@ -928,7 +1195,11 @@ fn replay(ctx: &Ctx, case: &Value) -> ShardOut {
     let plain_goal = name_shape(&sh, &namings(names.len(), true)[0]);
     let fset: BTreeSet<Fact> = facts.iter().cloned().collect();
     let model = dl::least_model(&fset, &rules);
-    let cap = if ctx.thorough() { STEP_CAP_THOROUGH } else { STEP_CAP_QUICK } * 10;
+    let model_nf = if has_filters(&rules) { Some(dl::least_model(&fset, &strip_filters(&rules))) } else { None };
+    // bounds recorded with the case (families with their own stage bound / step cap)
+    let stage_bound = case["stage_bound"].as_u64().map(|x| x as usize).unwrap_or(STAGE_BOUND);
+    let rf = Reference { model: &model, stage_bound, model_without_filters: model_nf.as_ref() };
+    let cap = (if ctx.thorough() { STEP_CAP_THOROUGH } else { STEP_CAP_QUICK } * 10).max(case["step_cap"].as_u64().unwrap_or(0));
     if SldCost::cost(&rules, &fset, &sh, cap).is_none() {
         out.capped.push("replay: predicted cost above 10x the step cap, goal not executed".into());
         return out;
@@ -944,10 +1215,13 @@ fn replay(ctx: &Ctx, case: &Value) -> ShardOut {
     out.evaluations = 2;
     let expected = expected_for(&goal, &model);
     let is_plain = plain_goal == goal;
-    let verdicts = judge(&obs[1], &model, &expected, if is_plain { None } else { Some(&obs[0]) });
-    let plain_ok = if is_plain { None } else { Some(judge(&obs[0], &model, &expected, None).is_empty()) };
+    let verdicts = judge(&obs[1], &rf, &expected, if is_plain { None } else { Some(&obs[0]) });
+    let plain_ok = if is_plain { None } else { Some(judge(&obs[0], &rf, &expected, None).is_empty()) };
+    let bo = BatchOpts { shapes: &[], full_namings: false, ext_namings: false, base_plain_only: false, step_cap: case["step_cap"].as_u64().unwrap_or(0), stage_bound, family: "replay" };
     for vd in verdicts {
-        out.fail(case_json(&rules, &facts, &goal), vd.symptom, vd.detail, tags_for(&rules, &goal, plain_ok));
+        let mut tags = tags_for(&rules, &goal, plain_ok);
+        tags.extend(vd.extra_tags.iter().cloned());
+        out.fail(case_json_b(&rules, &facts, &goal, &bo), vd.symptom, vd.detail, tags);
     }
     out
 }
